@@ -9,6 +9,15 @@ use std::panic::{catch_unwind, AssertUnwindSafe};
 use vfs::error::VfsErrorKind;
 use vfs::{AltrootFS, MemoryFS, OverlayFS, VfsFileType, VfsPath, VfsResult};
 
+// ---- behaviour trace: an order-insensitive digest of what the real crate answered on the explored universe (results, error kinds and
+//      error paths, listings, bytes; no timestamps, no messages). Printed as `TRACE <oracle> <hex>`; compared with the digest recorded on the
+//      pinned tree to tell an edit that changes behaviour from one that does not (tool/extras.py).
+static TRACE: std::sync::Mutex<u64> = std::sync::Mutex::new(0xcbf29ce484222325);
+static TRACE_ON: std::sync::atomic::AtomicBool = std::sync::atomic::AtomicBool::new(true);
+fn tr(s: &str) { if !TRACE_ON.load(std::sync::atomic::Ordering::SeqCst) { return; } let mut h = TRACE.lock().unwrap_or_else(|e| e.into_inner()); for b in s.as_bytes() { *h ^= *b as u64; *h = h.wrapping_mul(0x100000001b3); } *h ^= 0xff; *h = h.wrapping_mul(0x100000001b3); }
+fn tr_res<T>(what: &str, r: &VfsResult<T>) { match r { Ok(_) => tr(&format!("{} Ok", what)), Err(e) => tr(&format!("{} Err {} {:?}", what, kind_name(e), e.path())) } }
+fn kind_name(e: &vfs::VfsError) -> &'static str { match e.kind() { VfsErrorKind::IoError(_) => "Io", VfsErrorKind::FileNotFound => "NotFound", VfsErrorKind::InvalidPath => "InvalidPath", VfsErrorKind::Other(_) => "Other",
+    VfsErrorKind::DirectoryExists => "DirExists", VfsErrorKind::FileExists => "FileExists", VfsErrorKind::NotSupported => "NotSupported", #[allow(unreachable_patterns)] _ => "Async" } }
 struct Report { check: String, cases: u64, fail: Option<String> }
 impl Report {
     fn new(check: &str) -> Self { Report { check: check.to_string(), cases: 0, fail: None } }
@@ -16,7 +25,7 @@ impl Report {
     fn fail(&mut self, input: String, what: String) { if self.fail.is_none() { self.fail = Some(format!("{} :: {}", input, what)); } }
     fn done(self) -> bool {
         match self.fail {
-            None => { println!("PASS {} cases={}", self.check, self.cases); true }
+            None => { println!("PASS {} cases={}", self.check, self.cases); println!("TRACE {} {:016x}", self.check, *TRACE.lock().unwrap_or_else(|e| e.into_inner())); true }
             Some(f) => { println!("FAIL {} {}", self.check, f); false }
         }
     }
@@ -57,6 +66,7 @@ fn oracle_paths(max: usize) -> bool {
         for arg in &args {
             r.case();
             let got = catch_unwind(AssertUnwindSafe(|| p.join(arg)));
+            if let Ok(g) = &got { tr_res(&format!("join {} {}", render(base), arg), g); if let Ok(q) = g { tr(q.as_str()); tr(q.parent().as_str()); tr(&q.filename()); tr(&format!("{:?} {}", q.extension(), q.is_root())); } }
             let want = join_spec(base, arg);
             match (got, want) {
                 (Err(_), _) => r.fail(format!("join base={:?} arg={:?}", render(base), arg), "panicked".into()),
@@ -119,18 +129,20 @@ fn oracle_reader(depth: usize) -> bool {
                 let mut pos: i128 = 0;
                 for (i, op) in script.iter().enumerate() {
                     match op {
-                        ROp::Read(n) => {
+                        ROp::Read(n) => { tr(&format!("read {}", n));
                             let mut buf = vec![0xEEu8; *n];
                             let got = h.read(&mut buf);
+                            tr(&format!("{:?} {:?}", got.as_ref().map_err(|e| e.kind()), buf));
                             let avail = if pos >= content.len() as i128 { 0 } else { content.len() as i128 - pos } as usize;
                             let k = (*n).min(avail);
                             match got { Ok(g) if g == k && buf[..k] == content[pos.min(content.len() as i128) as usize..][..k] && buf[k..].iter().all(|b| *b == 0xEE) => { pos += k as i128; }
                                         other => return Some(format!("step {} {:?}: got {:?} buf {:?}, expected {} bytes", i, op, other.map_err(|e| e.to_string()), buf, k)) }
                         }
-                        ROp::Seek(s) => {
+                        ROp::Seek(s) => { tr(&format!("seek {:?}", s));
                             let target: i128 = match s { SeekFrom::Start(o) => *o as i128, SeekFrom::Current(d) => pos + *d as i128, SeekFrom::End(d) => content.len() as i128 + *d as i128 };
                             let want = if target >= 0 && target <= u64::MAX as i128 { Some(target) } else { None };
                             let got = h.seek(*s);
+                            tr(&format!("{:?}", got.as_ref().map_err(|e| e.kind())));
                             match (got, want) { (Ok(g), Some(w)) if g as i128 == w => { pos = w; }
                                                 (Err(_), None) => {}
                                                 (g, w) => return Some(format!("step {} {:?}: got {:?}, expected {:?}", i, op, g.map_err(|e| e.to_string()), w)) }
@@ -171,18 +183,21 @@ fn oracle_writer(depth: usize) -> bool {
                         WOp::Seek(s) => {
                             let target: i128 = match s { SeekFrom::Start(o) => *o as i128, SeekFrom::Current(d) => pos as i128 + *d as i128, SeekFrom::End(d) => model.len() as i128 + *d as i128 };
                             let got = h.seek(*s);
+                            tr(&format!("wseek {:?} {:?}", s, got.as_ref().map_err(|e| e.kind())));
                             if target < 0 { if got.is_ok() { return Some(format!("step {} {:?}: seek before start succeeded", i, op)); } }
                             else { match got { Ok(g) if g as i128 == target => pos = target as usize, g => return Some(format!("step {} {:?}: got {:?}", i, op, g.map_err(|e| e.to_string()))) } }
                         }
                         WOp::Flush => {
                             h.flush().unwrap();
                             let mut b = vec![]; f.open_file().unwrap().read_to_end(&mut b).unwrap();
+                            tr(&format!("flush {:?}", b));
                             if b != model { return Some(format!("step {} flush: file holds {:?}, expected {:?}", i, b, model)); }
                         }
                     }
                 }
                 drop(h);
                 let mut b = vec![]; f.open_file().unwrap().read_to_end(&mut b).unwrap();
+                tr(&format!("drop {:?} {}", b, f.metadata().map(|m| m.len).unwrap_or(u64::MAX)));
                 if b != model { return Some(format!("after drop: file holds {:?}, expected {:?}", b, model)); }
                 let len = f.metadata().unwrap().len;
                 if len != model.len() as u64 { return Some(format!("metadata.len {} expected {}", len, model.len())); }
@@ -237,7 +252,8 @@ fn model_apply(m: &mut Model, op: Op, p: &str) -> Result<(), EC> {
         }
     }
 }
-fn real_apply(root: &VfsPath, op: Op, p: &str) -> VfsResult<()> {
+fn real_apply(root: &VfsPath, op: Op, p: &str) -> VfsResult<()> { let r = real_apply0(root, op, p); tr_res(&format!("{:?} {}", op, p), &r); r }
+fn real_apply0(root: &VfsPath, op: Op, p: &str) -> VfsResult<()> {
     let q = root.join(&p[1..])?;
     match op {
         Op::CreateDir => q.create_dir(),
@@ -258,6 +274,10 @@ fn compare(root: &VfsPath, m: &Model, universe: &[&str]) -> Option<String> {
         let q = if p.is_empty() { root.clone() } else { root.join(&p[1..]).unwrap() };
         let want = m.get(*p);
         let ex = q.exists();
+        tr_res(&format!("exists {}", p), &ex); if let Ok(b) = &ex { tr(if *b { "t" } else { "f" }); }
+        { let md = q.metadata(); tr_res(&format!("metadata {}", p), &md); if let Ok(m) = &md { tr(&format!("{:?} {}", m.file_type, m.len)); } }
+        { let l = q.read_dir().map(|it| { let mut v: Vec<String> = it.map(|c| c.as_str().to_string()).collect(); v.sort(); v }); tr_res(&format!("read_dir {}", p), &l); if let Ok(v) = &l { tr(&v.join("|")); } }
+        { let t = q.read_to_string(); tr_res(&format!("read {}", p), &t); if let Ok(x) = &t { tr(x); } }
         if !matches!(ex, Ok(b) if b == want.is_some()) { return Some(format!("exists({:?}) = {:?}, model {:?}", p, ex.map_err(|e| e.to_string()), want.is_some())); }
         match (q.metadata(), want) {
             (Ok(md), Some(Node::Dir)) => { if md.file_type != VfsFileType::Directory || md.len != 0 { return Some(format!("metadata({:?}) = {:?}/{} for a directory", p, md.file_type, md.len)); } }
@@ -283,11 +303,24 @@ fn compare(root: &VfsPath, m: &Model, universe: &[&str]) -> Option<String> {
             (Err(_), _) => {}
         }
     }
+    // C05: walk_dir from the root yields every entry of the model exactly once and a directory before anything inside it
+    match root.walk_dir() {
+        Err(e) => return Some(format!("walk_dir(root) failed: {}", e)),
+        Ok(w) => {
+            let mut seen: Vec<String> = vec![];
+            for e in w { match e { Ok(p) => seen.push(p.as_str().to_string()), Err(e) => return Some(format!("walk_dir(root) yields an error: {}", e)) } }
+            for (i, p) in seen.iter().enumerate() { let par = parent(p); if !par.is_empty() && !seen[..i].contains(&par) { return Some(format!("walk_dir yields {:?} before its directory", p)); } }
+            let mut sorted = seen.clone(); sorted.sort();
+            let mut want: Vec<String> = m.keys().filter(|k| !k.is_empty()).cloned().collect(); want.sort();
+            tr(&sorted.join("|"));
+            if sorted != want { return Some(format!("walk_dir(root) yields {:?}, model {:?}", sorted, want)); }
+        }
+    }
     // C03: well-formedness of the model is an invariant of model_apply; the comparison above transfers it to the real tree
     None
 }
 fn universe_alias(_got: &str, _p: &str) -> bool { false }
-const UNIVERSE: [&str; 12] = ["", "/a", "/ab", "/a.b", "/a/b", "/a/b/c", "/a/a", "/é", "/é/x", "/.h", "/a\\z", "/mv"];
+const UNIVERSE: [&str; 14] = ["", "/a", "/ab", "/ab/x", "/a.b", "/a/b", "/a/b/c", "/a/a", "/é", "/é/x", "/.h", "/a\\z", "/mv", "/r"];
 fn make_backend(kind: &str) -> (VfsPath, Box<dyn Fn() -> Option<String>>) {
     match kind {
         "memory" => (MemoryFS::new().into(), Box::new(|| None)),
@@ -348,7 +381,7 @@ fn oracle_tree(kind: &str, depth: usize, with_composites: bool) -> bool {
         let mut m: Model = BTreeMap::new();
         m.insert(String::new(), Node::Dir);
         if populated {
-            for (p, c) in [("/a", None), ("/a/b", None), ("/a/b/c", Some(&b"c"[..])), ("/é", None), ("/ab", Some(&b"ab"[..]))] {
+            for (p, c) in [("/a", None), ("/a/b", None), ("/a/b/c", Some(&b"c"[..])), ("/é", None), ("/ab", None), ("/ab/x", Some(&b"x"[..]))] {
                 let q = root.join(&p[1..]).unwrap();
                 match c { None => { q.create_dir().unwrap(); m.insert(p.into(), Node::Dir); } Some(b) => { q.create_file().unwrap().write_all(b).unwrap(); m.insert(p.into(), Node::File(b.to_vec())); } }
             }
@@ -395,6 +428,7 @@ fn snapshot(root: &VfsPath) -> Vec<(String, Option<Vec<u8>>, Option<std::time::S
     for p in root.walk_dir().unwrap() { let p = p.unwrap(); let md = p.metadata().unwrap();
         let c = if p.is_file().unwrap() { let mut b = vec![]; p.open_file().unwrap().read_to_end(&mut b).unwrap(); Some(b) } else { None }; out.push((p.as_str().to_string(), c, md.modified, md.created)); }
     out.sort();
+    for (p, c, _, _) in &out { tr(&format!("snap {} {:?}", p, c.as_ref().map(|b| (b.len(), b.iter().fold(0u64, |a, x| a.wrapping_mul(31).wrapping_add(*x as u64)))))); }
     out
 }
 fn oracle_overlay(depth: usize) -> bool {
@@ -402,7 +436,7 @@ fn oracle_overlay(depth: usize) -> bool {
     #[derive(Clone, Copy, Debug)]
     enum O { Mut(Op), Exists, Meta, ReadDir, Read, Walk, SetTime }
     let ops = [O::Mut(Op::CreateDir), O::Mut(Op::CreateFile), O::Mut(Op::Append), O::Mut(Op::RemoveFile), O::Mut(Op::RemoveDir), O::Mut(Op::CreateDirAll), O::Mut(Op::RemoveDirAll), O::Mut(Op::MoveTo), O::Mut(Op::CopyTo), O::Exists, O::Meta, O::ReadDir, O::Read, O::Walk, O::SetTime];
-    let paths = ["/f", "/d", "/d/g", "/n", "/d/n"];
+    let paths = ["/f", "/d", "/d/g", "/n", "/d/n", "/s"];
     let steps: Vec<(O, &str)> = ops.iter().flat_map(|o| paths.iter().map(move |p| (*o, *p))).collect();
     let mut seqs: Vec<Vec<(O, &str)>> = vec![vec![]];
     for _ in 0..depth { let mut n = vec![]; for s in &seqs { for st in &steps { let mut t = s.clone(); t.push(*st); n.push(t); } } seqs = n; }
@@ -420,6 +454,11 @@ fn oracle_overlay(depth: usize) -> bool {
             }
             let mut layers = vec![upper.clone()]; layers.extend(lowers.iter().cloned());
             let ov: VfsPath = OverlayFS::new(&layers).into();
+            // pre-populated upper layer (C08: all layer contents): an entry and a marker for the same path side by side
+            upper.join("s").unwrap().create_file().unwrap().write_all(b"s").unwrap();
+            upper.join(".whiteout").unwrap().create_dir_all().unwrap(); upper.join(".whiteout/s_wo").unwrap().create_file().unwrap();
+            // a marker whose entry is in no layer any more (created and removed through the overlay)
+            ov.join("n0").unwrap().create_file().unwrap().write_all(b"0").unwrap(); ov.join("n0").unwrap().remove_file().unwrap();
             let before: Vec<_> = lowers.iter().map(snapshot).collect();
             let res = catch_unwind(AssertUnwindSafe(|| {
                 for (i, (o, p)) in seq.iter().enumerate() {
@@ -461,7 +500,7 @@ fn oracle_union(depth: usize) -> bool {
     let steps: Vec<(Op, &str)> = ops.iter().flat_map(|o| universe[1..].iter().map(move |p| (*o, *p))).collect();
     let mut seqs: Vec<Vec<(Op, &str)>> = vec![vec![]];
     for _ in 0..depth { let mut n = vec![]; for s in &seqs { for st in &steps { let mut t = s.clone(); t.push(*st); n.push(t); } } seqs = n; }
-    for upper_has_f in [false, true] {
+    for (upper_has_f, f_removed) in [(false, false), (true, false), (false, true)] {
         'seq: for seq in &seqs {
             let upper: VfsPath = MemoryFS::new().into();
             let l1: VfsPath = MemoryFS::new().into();
@@ -481,6 +520,7 @@ fn oracle_union(depth: usize) -> bool {
             m.insert("/e".into(), Node::Dir); m.insert("/h".into(), Node::File(big_h())); m.insert("/d/s".into(), Node::Dir);
             if upper_has_f { upper.join("f").unwrap().create_file().unwrap().write_all(b"f0").unwrap(); m.insert("/f".into(), Node::File(b"f0".to_vec())); }
             let ov: VfsPath = OverlayFS::new(&[upper.clone(), l1, l2]).into();
+            if f_removed { ov.join("f").unwrap().remove_file().unwrap(); m.remove("/f"); }
             // filter out the input classes of the known findings (evaluated on the model / upper layer as the sequence proceeds)
             let mut probe = m.clone();
             for (op, p) in seq {
@@ -509,7 +549,7 @@ fn oracle_union(depth: usize) -> bool {
                 }
                 None
             }));
-            match res { Err(_) => r.fail(format!("upper_has_f={} {:?}", upper_has_f, seq), "panicked".into()), Ok(Some(d)) => r.fail(format!("upper_has_f={} {:?}", upper_has_f, seq), d), Ok(None) => {} }
+            match res { Err(_) => r.fail(format!("upper_has_f={} f_removed={} {:?}", upper_has_f, f_removed, seq), "panicked".into()), Ok(Some(d)) => r.fail(format!("upper_has_f={} f_removed={} {:?}", upper_has_f, f_removed, seq), d), Ok(None) => {} }
         }
     }
     r.done()
@@ -537,6 +577,7 @@ fn oracle_transfer() -> bool {
                         if dest_exists { dst.create_file().unwrap().write_all(b"old").unwrap(); }
                         let what = format!("same_fs={} altroot_src={} len={} move={} dest_exists={}", same, alt_src, content.len(), mv, dest_exists);
                         let res = if mv { src.move_file(&dst) } else { src.copy_file(&dst) };
+                        tr_res(&what, &res); snapshot(&a); snapshot(&b);
                         let read = |p: &VfsPath| -> Option<Vec<u8>> { let mut v = vec![]; p.open_file().ok()?.read_to_end(&mut v).ok()?; Some(v) };
                         if dest_exists {
                             if res.is_ok() { r.fail(what.clone(), "existing destination was not refused".into()); }
@@ -672,11 +713,20 @@ fn oracle_faults() -> bool {
     ];
     for (name, scn) in &scenarios {
         let run = |k: i64| catch_unwind(AssertUnwindSafe(|| scn(k)));
-        let (n, base) = match run(-1) { Ok(x) => x, Err(_) => { r.fail(format!("{} fault-free", name), "panicked".into()); continue; } };
+        TRACE_ON.store(false, std::sync::atomic::Ordering::SeqCst);
+        let base_run = run(-1);
+        TRACE_ON.store(true, std::sync::atomic::Ordering::SeqCst);
+        let (n, base) = match base_run { Ok(x) => x, Err(_) => { r.fail(format!("{} fault-free", name), "panicked".into()); continue; } };
         if let Some(b) = base { r.fail(format!("{} fault-free", name), b); }
         for k in 0..n as i64 {
             r.case();
-            match run(k) { Err(_) => r.fail(format!("{} with call #{} failing", name, k), "panicked".into()),
+            // which underlying call is the k-th depends on HashMap iteration order: only the verdict of the scenario is traced
+            TRACE_ON.store(false, std::sync::atomic::Ordering::SeqCst);
+            let out = run(k);
+            TRACE_ON.store(true, std::sync::atomic::Ordering::SeqCst);
+            tr(&format!("{} {:?}", name, out.as_ref().map(|x| x.1.is_some()).map_err(|_| ())));
+            let _ = k;
+            match out { Err(_) => r.fail(format!("{} with call #{} failing", name, k), "panicked".into()),
                            Ok((_, Some(b))) => r.fail(format!("{} with call #{} failing", name, k), b), Ok((_, None)) => {} }
         }
     }
@@ -709,6 +759,7 @@ fn oracle_copydir() -> bool {
                     let what = format!("source={:?} tree={:?} same_fs={} move={} dest_exists={}", srcname, tree.iter().map(|t| t.0).collect::<Vec<_>>(), same, mv, dest_exists);
                     let before = snapshot(&src);
                     let res: Result<Option<u64>, String> = catch_unwind(AssertUnwindSafe(|| if mv { src.move_dir(&dst).map(|_| None) } else { src.copy_dir(&dst).map(Some) })).map_err(|_| "panic".to_string()).and_then(|x| x.map_err(|e| e.to_string()));
+                    tr(&format!("{} {:?}", what, res)); snapshot(&a); snapshot(&b);
                     if dest_exists {
                         if res.is_ok() { r.fail(what.clone(), "existing destination was not refused".into()); }
                         if snapshot(&src) != before || dst.read_dir().unwrap().count() != 0 { r.fail(what.clone(), "refused transfer had side effects".into()); }
@@ -784,7 +835,9 @@ fn oracle_times() -> bool {
                     let mut cur = match q.metadata() { Ok(m) => m, Err(e) => return Some(format!("metadata failed: {}", e)) };
                     for (step, (f, t)) in [(f1, t1), (f2, t2)].iter().enumerate() {
                         let got = set(&q, *f, *t);
+                        tr_res(&format!("{} {} set {:?}", kind, target, f), &got);
                         let md = match q.metadata() { Ok(m) => m, Err(e) => return Some(format!("metadata failed after step {}: {}", step, e)) };
+                        tr(&format!("{} {:?} {} {} {}", md.len, md.file_type, md.created == Some(*t), md.modified == Some(*t), md.accessed == Some(*t)));
                         match got {
                             Ok(()) => {
                                 let (c, m, a) = match f { F::C => (Some(*t), cur.modified, cur.accessed), F::M => (cur.created, Some(*t), cur.accessed), F::A => (cur.created, cur.modified, Some(*t)) };
@@ -849,9 +902,42 @@ fn oracle_handles() -> bool {
                 if let Err(e) = o.create_file().and_then(|mut h| { h.write_all(b"ok")?; Ok(()) }) { return Some(format!("filesystem unusable afterwards: {}", e)); }
                 if o.read_to_string().ok().as_deref() != Some("ok") { return Some("filesystem unusable afterwards: wrong content".into()); }
                 if root.walk_dir().map(|w| w.filter(|e| e.is_err()).count()).unwrap_or(1) != 0 { return Some("walk_dir fails afterwards".into()); }
+                snapshot(&root);
                 None
             }));
             let what = format!("backend={} scenario={}", kind, scenario);
+            match res { Err(_) => r.fail(what, "panicked".into()), Ok(Some(d)) => r.fail(what, d), Ok(None) => {} }
+        }
+    }
+    r.done()
+}
+
+/// entries that vanish while a traversal is under way: each is reported once, as a not-found error naming the entry, and the walk ends
+fn oracle_walk_vanish() -> bool {
+    let mut r = Report::new("walk.vanish");
+    for kind in ["memory", "altroot", "overlay"] {
+        for nfiles in [1usize, 3] {
+            r.case();
+            let (root, _extra) = make_backend(kind);
+            let names: Vec<String> = (0..=nfiles).map(|i| format!("f{}", i)).collect();
+            for n in &names { root.join(n).unwrap().create_file().unwrap().write_all(b"x").unwrap(); }
+            let res = catch_unwind(AssertUnwindSafe(|| {
+                let mut w = root.walk_dir().unwrap();
+                let first = match w.next() { Some(Ok(p)) => p.as_str().to_string(), other => return Some(format!("walk did not start: {:?}", other.map(|x| x.map(|p| p.as_str().to_string()).map_err(|e| e.to_string())))) };
+                for n in &names { let _ = root.join(n).unwrap().remove_file(); }
+                let mut errs: Vec<String> = vec![];
+                for (i, e) in w.enumerate() {
+                    if i > 20 { return Some("the walk does not end".to_string()); }
+                    match e { Ok(p) => return Some(format!("a removed entry {:?} is yielded as present", p.as_str())),
+                              Err(e) => { if !matches!(e.kind(), VfsErrorKind::FileNotFound) { return Some(format!("vanished entry reported as {:?}", e.kind())); } errs.push(e.path().clone()); } }
+                }
+                errs.sort();
+                let mut want: Vec<String> = names.iter().map(|n| format!("/{}", n)).filter(|p| *p != first).collect(); want.sort();
+                tr(&format!("{} {:?}", kind, errs.len()));
+                if errs != want { return Some(format!("error items name {:?}, expected {:?}", errs, want)); }
+                None
+            }));
+            let what = format!("backend={} files={}", kind, nfiles + 1);
             match res { Err(_) => r.fail(what, "panicked".into()), Ok(Some(d)) => r.fail(what, d), Ok(None) => {} }
         }
     }
@@ -880,11 +966,14 @@ fn oracle_hostile() -> bool {
             let mut names: Vec<String> = match root.read_dir() { Ok(it) => it.map(|p| p.filename()).collect(), Err(e) => return Some(format!("read_dir(root) failed: {}", e)) };
             if names.len() != if have_bad { 6 } else { 5 } { return Some(format!("root lists {:?}", names)); }
             names.sort();
+            tr(&names.join("|"));
             for n in &names {
                 let q = match root.join(n) { Ok(q) => q, Err(_) => continue };
                 // consistency (C05): an entry whose metadata can be read is a directory iff it can be listed
+                tr_res(&format!("hostile {} exists {}", op, n), &q.exists());
                 if let Ok(md) = q.metadata() {
                     let listable = q.read_dir().is_ok();
+                    tr(&format!("{:?} {}", md.file_type, listable));
                     if (md.file_type == VfsFileType::Directory) != listable { return Some(format!("{:?}: metadata says {:?} but read_dir {}", n, md.file_type, if listable { "succeeds" } else { "fails" })); }
                     if q.is_dir().ok() != Some(listable) { return Some(format!("{:?}: is_dir disagrees with read_dir", n)); }
                 }
@@ -947,6 +1036,7 @@ fn oracle_embedded() -> bool {
         let res = catch_unwind(AssertUnwindSafe(|| {
             let (qe, qp) = if p.is_empty() { (emb.clone(), phys.clone()) } else { (match emb.join(&p[1..]) { Ok(q) => q, Err(_) => return None }, phys.join(&p[1..]).unwrap()) };
             let (a, b) = (qe.exists().ok(), qp.exists().ok());
+            tr(&format!("emb {} {:?}", p, a)); tr_res("emb md", &qe.metadata()); tr_res("emb ls", &qe.read_dir().map(|_| ())); tr_res("emb rd", &qe.read_to_string());
             if a != b { return Some(format!("exists: embedded {:?}, physical {:?}", a, b)); }
             let md = |q: &VfsPath| q.metadata().ok().map(|m| (m.file_type == VfsFileType::Directory, m.len));
             if md(&qe) != md(&qp) { return Some(format!("metadata: embedded {:?}, physical {:?}", md(&qe), md(&qp))); }
@@ -964,6 +1054,7 @@ fn oracle_embedded() -> bool {
                 ("remove_file", qe.remove_file()), ("remove_dir", qe.remove_dir()), ("set_creation_time", qe.set_creation_time(t)), ("set_modification_time", qe.set_modification_time(t)), ("set_access_time", qe.set_access_time(t))];
             // the path layer checks the parent of create_dir / create_file itself: below a missing or non-directory parent any refusal will do
             let parent_is_dir = p.is_empty() || qp.parent().is_dir().unwrap_or(false);
+            for (name, o) in &outcomes { tr_res(name, o); }
             for (name, o) in outcomes { match o { Ok(()) => return Some(format!("{} succeeded on a read-only filesystem", name)),
                 Err(e) => if !matches!(e.kind(), VfsErrorKind::NotSupported) && (parent_is_dir || !name.starts_with("create_")) { return Some(format!("{} failed with {:?}, expected NotSupported", name, e.kind())); } } }
             None
@@ -999,6 +1090,7 @@ fn main() {
             "times" => oracle_times(),
             "embedded" => oracle_embedded(),
             "handles" => oracle_handles(),
+            "walk.vanish" => oracle_walk_vanish(),
             "hostile.physical" => oracle_hostile(),
             other => { println!("UNKNOWN {}", other); false }
         };
